@@ -161,6 +161,9 @@ def search(ctx, broken, corr_failures):
 def explains(broken_item, found):
     b = broken_item.lower()
     keys = " ".join(v.key for v in found).lower()
+    if b.startswith("translator unit gridt") or "case file did not evaluate" in b:
+        # the whole unit failed closed (it reads grid.py and cube.py): any new concrete failing input of the maps explains it
+        return bool(found)
     if "lattice" in b or "coords" in b or "gridcoords" in b:
         return "lattice" in keys or "coords" in keys
     if "round" in b:
